@@ -1,17 +1,17 @@
 #!/bin/bash
 # usage: seedverify.sh <ID>   — confirms a sub-agent's seeded change in its scratch worktree /tmp/seed/<ID>:
 # the project's test suite passes with the change, the demonstration fails with it and passes without it.
-id=$1; wt=/tmp/seed/$id; seed=$wt/SEED
+id=$1; base=${SEEDBASE:-/tmp/seed}; wt=$base/$id; seed=$wt/SEED
 export GOFLAGS= GOPROXY=off GOSUMDB=off GOTOOLCHAIN=local
 git -C $wt checkout -q -- . ; git -C $wt clean -fdq -e SEED -e PROPERTY.json -e '*.diff' . 2>/dev/null
 git -C $wt apply $seed/patch.diff || { echo "PATCH DOES NOT APPLY"; exit 1; }
 # hide the SEED dir from the root module while running the suite
-mv $seed /tmp/seed/.$id.SEED
+mv $seed $base/.$id.SEED
 fail=0
 for m in . libvore libvore/algo libvore/ast libvore/bytecode libvore/ds libvore/engine libvore/files; do
   (cd $wt/$m && timeout 600 go test -vet=off -count=1 ./... >/dev/null 2>&1) || { echo "suite FAILS in $m"; fail=1; }
 done
-mv /tmp/seed/.$id.SEED $seed
+mv $base/.$id.SEED $seed
 echo "test suite with the change: $([ $fail = 0 ] && echo PASS || echo FAIL)"
 demo=$(ls $seed/demo*_test.go* $seed/_demo/*_test.go 2>/dev/null | head -1)
 rundemo() {
